@@ -60,7 +60,7 @@ CLAIMED = {
    technique="Lean 4 proof (operation-level lemmas + history invariant) + differential correspondence (hub histories, controlled schedules)",
    design="§8 C15"),
  "C17": dict(
-   text="Theorems over every history: with tracking on, each accepted connection produced exactly one active=true event per selector (in selector order, before it is indexed) and exactly one active=false per selector once it is gone while the hub is open, none before; none at all with tracking off; events only for accepted connections; each event is one private update whose topic is the subscription id; the escaping round-trips and — for the escaping in /repo, regenerated on every run — yields percent-encoded ids (witness theorem for the old '+' escaping, F11). Tie: hub histories with a '*' watcher and a template watcher, selectors with reserved characters / spaces / unicode, every way of ending.",
+   text="Theorems over every history: with tracking on, each accepted connection produced exactly one active=true event per selector (in selector order, before it is indexed) and exactly one active=false per selector once it is gone while the hub is open, none before; none at all with tracking off; a registration that fails half-way (AddSubscriber error after the announcement: the model's connectFail operation, driven by fault injection in the harness) is announced exactly once per selector with active=true and once with active=false and leaves nothing behind (not a connection, not in the subscriber list); events only for accepted connections or such failed registrations; each event is one private update whose topic is the subscription id; the escaping round-trips and — for the escaping in /repo, regenerated on every run — yields percent-encoded ids (witness theorem for the old '+' escaping, F11). Tie: hub histories with a '*' watcher and a template watcher, selectors with reserved characters / spaces / unicode, every way of ending.",
    note=TB + SEQ + "On a closed hub nobody is left to tell: active=false is not dispatched there (stated).",
    technique="Lean 4 proof (ghost event log invariant over histories; byte-level escaping lemmas) + regenerated-fact obligation + differential correspondence",
    design="§8 C17"),
